@@ -271,7 +271,14 @@ def step_list(ctx, g, h, sh, rng):
         ri = call(g, lambda: ml.append(O[v])); moved(v); rs = call(g, lambda: l.append(v)); item = [4, ir, v]
     elif m == "insert":
         desc = "n%d.modules.insert(%d, n%d)" % (ir, idx, v)
-        ri = call(g, lambda: ml.insert(idx, O[v])); moved(v); rs = call(g, lambda: l.insert(idx, v)); item = [5, ir, idx, v]
+        ri = call(g, lambda: ml.insert(idx, O[v]))
+        # insert(i, x) is s[i:i] = [x]: a member is moved to where the built-in puts it
+        rs = call(g, lambda: ([].insert(idx, None), assign_moved(l, slice(idx, idx), [v]))[1])
+        if rs[0] == "ok":
+            for ll in sh.lists.values():
+                if ll is not l and v in ll:
+                    ll.remove(v)
+        item = [5, ir, idx, v]
     elif m in ("extend", "iadd"):
         # the argument may name a module more than once, and modules already in this list: each mention moves it to the end
         vs = [rng.choice(l) if (l and rng.random() < 0.3) else rng.choice(mods) for _ in range(rng.choice([0, 1, 2, 3, 4]))]
@@ -948,6 +955,15 @@ def exhaustive_small_list(ctx, g):
             ir, ms, extra, l = fresh()
             ri, rs = outcome(lambda: ir.modules.__setitem__(i, ms[k])), outcome(lambda: assign_moved(l, i, k))
             judge("[%d] = m%d (a member)" % (i, k), ri, rs, ir, ms, extra, l)
+    # insert(i, m) is `s[i:i] = [m]` (the sequence interface's own definition): a member is moved to where the built-in puts it
+    for k in range(3):
+        for i in list(R) + [5, -5]:
+            ir, ms, extra, l = fresh()
+            ri, rs = outcome(lambda: ir.modules.insert(i, ms[k])), outcome(lambda: assign_moved(l, slice(i, i), [k]))
+            judge("insert(%d, m%d) (a member)" % (i, k), ri, rs, ir, ms, extra, l)
+            ir, ms, extra, l = fresh()
+            ri, rs = outcome(lambda: ir.modules.append(ms[k])), outcome(lambda: assign_moved(l, slice(3, 3), [k]))
+            judge("append(m%d) (a member)" % k, ri, rs, ir, ms, extra, l)
     RHS = [[0], [2], [0, 3], [3, 3], [1, 3, 1], [2, 1, 0], [0, 0, 0], [3, 0, 3, 0]]
     for i in list(R) + [None]:
         for j in list(R) + [None]:
